@@ -104,8 +104,19 @@ class Converter(abc.ABC, t.Generic[T_co]):
 
 
 @dataclasses.dataclass
+@dataclasses.dataclass
 class AnyConverter(Converter[t.Any]):
     """Converter for ``t.Any``."""
+    handlers: ConverterHandlers = ConverterHandlers()
+    """Custom handlers in effect (used to serialise values, whose type is only known at runtime)"""
+
+    def into_data(self, val: t.Any) -> DataType:
+        """See [`Converter.into_data`][pane.converters.Converter.into_data]"""
+        if not (self.handlers.globals or self.handlers.class_local):
+            return super().into_data(val)
+        # no static type information: convert by runtime type, keeping the custom handlers in effect
+        return make_converter(t.cast(t.Type[t.Any], type(val)), self.handlers).into_data(val)
+
     def try_convert(self, val: t.Any) -> t.Any:
         """See [`Converter.try_convert`][pane.converters.Converter.try_convert]"""
         return val
